@@ -80,7 +80,20 @@ C05Cases(z) ==
         fs \in {x \in Lists(RegMenu) : Len(x) <= (IF Thorough THEN 4 ELSE 2) \/ (Len(x) = 3 /\ x[1].name \in {"r1", "r6", "r13"})}}
     \cup {SplitCase(t, fs, TRUE, 1) : t \in Targets(FALSE), fs \in {s \in Special : Len(s) > 0 /\ \A i \in DOMAIN s : s[i].type # 0}}
 
-CaseSet(z) == CASE Set = "c06" -> C06Cases(0) [] Set = "c05" -> C05Cases(0)
+\* histories: several Read* calls on ONE builder holding fields of both kinds (each call must still see every field)
+Mixed == {
+    <<CoilMenu[1], RegMenu[1], CoilMenu[2], RegMenu[2], RegMenu[6]>>,
+    <<RegMenu[1], CoilMenu[1], RegMenu[4], CoilMenu[7], RegMenu[12], CoilMenu[6]>>,
+    <<CoilMenu[6], CoilMenu[1], RegMenu[11], RegMenu[14]>> }
+T(fc, fr) == [fc |-> fc, framing |-> fr]
+Chains == { <<T(3, "tcp"), T(4, "tcp"), T(1, "tcp"), T(3, "rtu")>>, <<T(1, "tcp"), T(3, "tcp"), T(2, "rtu"), T(4, "rtu")>>,
+            <<T(4, "rtu"), T(4, "rtu"), T(3, "tcp")>>, <<T(2, "tcp"), T(2, "tcp"), T(1, "rtu"), T(3, "tcp")>> }
+HistCases(e2e) ==
+    {[op |-> "split", target |-> ch[1], again |-> Tail(ch), fields |-> fs, e2e |-> e2e, mem |-> 1] : ch \in Chains, fs \in Mixed}
+    \cup {[op |-> "split", target |-> ch[1], again |-> Tail(ch), fields |-> fs, e2e |-> e2e, mem |-> 0] :
+            ch \in Chains, fs \in {x \in Lists(RegMenu) : Len(x) = 3 /\ x[1].name \in {"r1", "r2"}}}
+
+CaseSet(z) == CASE Set = "c06" -> C06Cases(0) \cup HistCases(FALSE) [] Set = "c05" -> C05Cases(0) \cup HistCases(TRUE)
 
 Init == c \in CaseSet(0)
 Next == UNCHANGED c
